@@ -12,6 +12,8 @@ after replacing the per-run directory prefixes:
   jitter   1 us switch interval + random delays in the store reads (parallel T1 scenarios)
   cwd      another working directory
   now      ctx.now unset (now_ms supplied) under a shifted datetime.now
+(A "reused ctx object" variant was tried and dropped: the ctx deliberately carries the scheduler's slice counter
+from turn to turn, so a reused ctx is a different input, not a perturbation.)
 """
 from __future__ import annotations
 
